@@ -15,5 +15,10 @@ std::string mutateBytes(const std::string &data, Rng &rng, int n, std::string &d
 // Truncation classes used by C07/C01: returns prefixes of the text cut (0) to empty, (1) inside a tag name,
 // (2) inside an attribute value, (3) right after the root start tag, (4) before the root close tag.
 std::string truncateClass(const std::string &xml, int cls);
+// Legal-but-unexpected XML (see mutate2.cpp): comments / PIs / CDATA around text, twin attributes in other namespaces,
+// one value blown up (document below 64 KiB), names taken from the library's own string literals, DOCTYPE + entity
+// references, units DAGs.  Falls back to byte mutation when the input is not well-formed.
+std::string mutateHostileXml(const std::string &xml, Rng &rng, int n, std::string &desc);
+const std::vector<std::string> &libraryLiterals();
 
 } // namespace vh
